@@ -352,36 +352,65 @@ func ruleR10d(c *Ctx) {
 		}
 		return true
 	})
-	// the collision test: a comma-ok lookup keyed by a name built with strconv.Itoa
-	n := 0
+	// helpers the naming steps were moved into: a base table handed to a helper is the same table there
+	helpers := c.withHelpers("soymsg", fd, 2)
 	ast.Inspect(fd.Body, func(x ast.Node) bool {
-		ifs, ok := x.(*ast.IfStmt)
-		if !ok || ifs.Init == nil {
-			return true
-		}
-		as, ok := ifs.Init.(*ast.AssignStmt)
-		if !ok || len(as.Rhs) != 1 {
-			return true
-		}
-		ix, ok := ast.Unparen(as.Rhs[0]).(*ast.IndexExpr)
+		call, ok := x.(*ast.CallExpr)
 		if !ok {
 			return true
 		}
-		key, ok := ast.Unparen(ix.Index).(*ast.Ident)
-		if !ok {
-			return true
+		cal := calleeFunc(call, info)
+		for _, hd := range helpers[1:] {
+			if info.Defs[hd.Name] != types.Object(cal) {
+				continue
+			}
+			i := 0
+			for _, fl := range hd.Type.Params.List {
+				for _, nm := range fl.Names {
+					if i < len(call.Args) {
+						if id, ok := ast.Unparen(call.Args[i]).(*ast.Ident); ok && baseTables[info.Uses[id]] {
+							baseTables[info.Defs[nm]] = true
+						}
+					}
+					i++
+				}
+			}
 		}
-		init := resolveLocalInit(key, fd.Body, info)
-		if !strings.Contains(exprKey(init), "Itoa") {
-			return true
-		}
-		n++
-		m, _ := ast.Unparen(ix.X).(*ast.Ident)
-		c.check(m != nil && baseTables[info.Uses[m]], "R10d", "soymsg.setPlaceholderNames suffix-collision-table", ifs.Pos(),
-			"a suffixed name is skipped when it equals some placeholder's base name",
-			"a suffixed name is tested against "+exprKey(ix.X)+" instead of the base-name table: it can coincide with the name another placeholder gets later, which then overwrites it (empty or shifted placeholder names, hence different ids)")
 		return true
 	})
+	// the collision test: a comma-ok lookup keyed by a name built with strconv.Itoa
+	n := 0
+	for _, hd := range helpers {
+		scopeBody := hd.Body
+		ast.Inspect(scopeBody, func(x ast.Node) bool {
+			ifs, ok := x.(*ast.IfStmt)
+			if !ok || ifs.Init == nil {
+				return true
+			}
+			as, ok := ifs.Init.(*ast.AssignStmt)
+			if !ok || len(as.Rhs) != 1 {
+				return true
+			}
+			ix, ok := ast.Unparen(as.Rhs[0]).(*ast.IndexExpr)
+			if !ok {
+				return true
+			}
+			key, ok := ast.Unparen(ix.Index).(*ast.Ident)
+			if !ok {
+				return true
+			}
+			init := resolveLocalInit(key, scopeBody, info)
+			if !strings.Contains(exprKey(init), "Itoa") {
+				return true
+			}
+			n++
+			m, _ := ast.Unparen(ix.X).(*ast.Ident)
+			c.check(m != nil && baseTables[info.Uses[m]], "R10d", "soymsg.setPlaceholderNames suffix-collision-table", ifs.Pos(),
+				"a suffixed name is skipped when it equals some placeholder's base name",
+				"a suffixed name is tested against "+exprKey(ix.X)+" instead of the base-name table: it can coincide with the name another placeholder gets later, which then overwrites it (empty or shifted placeholder names, hence different ids)")
+			return true
+		})
+	}
 	c.floor("R10d", "suffix collision tests", 1, n)
 	// R10e
 	winfo := info
